@@ -38,7 +38,14 @@ func (e *c08Env) run(ver, sender string, oldPL, newPL interface{}, createExtra J
 		e.c.Count("skipped/unparsed")
 		return "unparsed"
 	}
-	out := e.c.Run("c07.allowed", c07Args(ver, ev, c07Shuffle(e.c.Rng, s.auths)), "C07.allowed", e.propOp, what+" "+desc)
+	auths := c07Shuffle(e.c.Rng, s.auths)
+	out := e.c.Run("c07.allowed", c07Args(ver, ev, auths), "C07.allowed", e.propOp, what+" "+desc)
+	if e.propOp == c07PropOp && c07PropOp != "" {
+		final := c07Args(ver, ev, auths)
+		final[1] = c07SigTable(ev, auths)
+		e.c.emit("c07.allowed", final, out, "", "C07.prop.literal", what+" "+desc)
+		c07Literal = append(c07Literal, append(append([][]byte{}, final...), out))
+	}
 	return string(out)
 }
 
